@@ -190,6 +190,15 @@ func (env *Zlisp) comparePair(a *SexpPair, b Sexp) (int, error) {
 	switch t := b.(type) {
 	case *SexpPair:
 		bp = t
+	case *SexpSentinel:
+		if t == SexpNull {
+			// nil is the empty list (and the end of every list): a list with
+			// elements comes after it, as nil comes before the list when it
+			// is the left operand.
+			return 1, nil
+		}
+		errmsg := fmt.Sprintf("err 96: cannot compare %T to %T", a, b)
+		return 0, errors.New(errmsg)
 	default:
 		errmsg := fmt.Sprintf("err 96: cannot compare %T to %T", a, b)
 		return 0, errors.New(errmsg)
